@@ -51,6 +51,7 @@ def run(tier, wd):
     q = tier == "quick"
     p = g.STD_PROG
     keys = [g.opt_key(o["names"]) for o in p["opts"]]
+    core.replay_witnesses(rep, binpath, wd)
     # (1) the scanner machine terminates on every class string (TLC: liveness under weak fairness) and the library's lexer does
     #     on their concretisations
     res, runs, rows = lc.lexer_runs(rep, wd, binpath, "MCLex3" if q else "MCLex4")
